@@ -978,6 +978,9 @@ class CoseContext(AbstractContext):
                     # detach payload
                     msg_dec = cbor2.loads(msg_enc)
                     tgt_blk.setfieldval('btsd', msg_dec[2])
+                    # the parsed content no longer describes the block data,
+                    # it must not be encoded over the ciphertext again
+                    tgt_blk.remove_payload()
                     msg_dec[2] = None
 
                 elif keyops.WrapOp in sop.priv_key.key_ops:
@@ -1012,6 +1015,9 @@ class CoseContext(AbstractContext):
                     # detach payload
                     msg_dec = cbor2.loads(msg_enc)
                     tgt_blk.setfieldval('btsd', msg_dec[2])
+                    # the parsed content no longer describes the block data,
+                    # it must not be encoded over the ciphertext again
+                    tgt_blk.remove_payload()
                     msg_dec[2] = None
 
                 else:
